@@ -231,7 +231,8 @@ fn judge_hwd_inner(ctx: &mut Ctx, layer: &'static Layer, depth: u8, lon: f64, la
   let d = dist(rp, (lon, lat));
   if lon.abs() < 50.0 { ctx.worst_max("position_recovered_from_offsets_rad", d); }
   if d > far_tol(1e-13, lon) { ctx.violation("position-not-recovered-from-offsets", mk(), format!("h={} dx={} dy={} -> {:?} d={:e}", h, dx, dy, rp, d)); }
-  if dx >= 0.0 && dx < 1.0 && dy >= 0.0 && dy < 1.0 {
+  // "sph_coo inverts it whenever both offsets are below 1": including offsets that are negative by a rounding error
+  if dx < 1.0 && dy < 1.0 {
     ctx.eval();
     match catch(|| layer.sph_coo(h, dx, dy)) {
       Err(e) => ctx.violation("sph_coo-panics-on-returned-offsets", mk(), e),
